@@ -140,9 +140,16 @@ func verifC09RelayCandidates() {
 	relayConn := &verifUDPConn{}
 	relayConn.local = &net.UDPAddr{IP: net.IPv4(70, 0, 0, 1), Port: 7000}
 	onCloseCalls, closeConnCalls := 0, 0
+	lateDealloc := false
 	ep := relayEndpoint{network: udp, address: net.IPv4(70, 0, 0, 1).To4(), port: 7000, relAddr: "10.0.0.1", relPort: 5, protocol: udp, conn: relayConn,
 		onClose:   func() error { onCloseCalls++; return nil },
-		closeConn: func() { closeConnCalls++; _ = relayConn.Close() }}
+		closeConn: func() {
+			closeConnCalls++
+			if onCloseCalls > 0 {
+				lateDealloc = true // the TURN client (and its socket) are gone: the allocation can no longer be freed on the server
+			}
+			_ = relayConn.Close()
+		}}
 	// address rewrite: none / replace with nothing (no usable address) / append one extra address
 	rewriteKind := verifChoice(3)
 	switch rewriteKind {
@@ -173,6 +180,7 @@ func verifC09RelayCandidates() {
 		verifAssertKnown(onCloseCalls == 1, "relay:TURN-client-and-local-socket-released-when-no-candidate-adopts-them", "C09-relay-release-on-failure", true)
 	}
 	verifAssert(relayConn.closed <= 1 && onCloseCalls <= 1, "nothing-released-twice")
+	verifAssertKnown(!lateDealloc, "the-allocation-is-released-while-the-TURN-client-it-needs-is-still-open", "C09-relay-dealloc-after-client-closed", true)
 	// removal releases everything exactly once
 	a.deleteAllCandidates()
 	if adopted {
